@@ -176,6 +176,8 @@ func SearchSessionC11(t *tape.Tape) *core.RunResult {
 	rec.verify = func() bool { cnt++; return cnt%sample == 0 }
 	judged := 0
 	ctx := context.Background()
+	startLen := len(gs.g.Moves) // the history played before the session is not taken back
+	takeBack := false
 	for i := 0; i < nSearch; i++ {
 		cur := gs.g.Pos()
 		maxD := cfgForTT(t, &cur).depth
@@ -187,6 +189,20 @@ func SearchSessionC11(t *tape.Tape) *core.RunResult {
 			cfg := base
 			cfg.depth = d
 			if gs.b.Result().Outcome == board.Draw {
+				if ev := gs.g.Events(); ev.Material && !ev.Rep3 && !ev.Fifty && len(gs.g.Moves) > startLen {
+					// drawn by material right now (not by history): searched as a root all the same (the engine does,
+					// a claimable draw does not end the game), with the shared table, unjudged; the game then goes
+					// back one ply, where this position is an inner node worth zero whatever the table holds for it
+					res.Tracef("search depth=%d on the root %q, drawn by material: unjudged", d, gs.g.FEN())
+					rec.b, rec.cfg, rec.step = gs.b, cfg, judged+1
+					keep := rec.verify
+					rec.verify = nil
+					cfg.realSearch(nil).Search(ctx, &search.Context{TT: rec}, gs.b, d)
+					rec.verify = keep
+					res.Probe("materially-drawn-root-searched-then-taken-back")
+					takeBack = true
+					continue
+				}
 				res.Inconclusive["excluded-root-already-drawn"]++
 				res.Tracef("excluded from here: the root is already drawn")
 				goto done
@@ -270,7 +286,19 @@ func SearchSessionC11(t *tape.Tape) *core.RunResult {
 				}
 			}
 		}
-		// the game advances by 1..2 plies
+		// the game goes back one ply (always after a materially drawn root, else now and then) ...
+		if (takeBack || t.Chance(1, 6)) && len(gs.g.Moves) > startLen {
+			takeBack = false
+			if _, ok := gs.b.PopMove(); !ok {
+				res.Discarded = "take-back refused"
+				return res
+			}
+			gs.g.Moves = gs.g.Moves[:len(gs.g.Moves)-1]
+			res.Tracef("take back")
+			res.Fault("take-back")
+			continue
+		}
+		// ... or advances by 1..2 plies
 		for k := t.Range(1, 2); k > 0; k-- {
 			cur := gs.g.Pos()
 			legal := cur.LegalMoves()
